@@ -45,6 +45,9 @@ TChar == UCSet \cup { LC[i] : i \in 1..26 } \cup DOMAIN DigitFn
 
 Lower(c)    == IF c \in UCSet THEN LowerFn[c] ELSE c
 LowerSeq(s) == [ i \in 1..Len(s) |-> Lower(s[i]) ]
+LCSet == { LC[i] : i \in 1..26 }
+UpperFn == [ c \in LCSet |-> UC[CHOOSE i \in 1..26 : LC[i] = c] ]
+UpperSeq(s) == [ i \in 1..Len(s) |-> IF s[i] \in LCSet THEN UpperFn[s[i]] ELSE s[i] ]    \* ASCII only, like Lower
 IsDigits(s) == \A i \in 1..Len(s) : s[i] \in DOMAIN DigitFn
 
 RECURSIVE DecVal(_, _, _)
@@ -158,7 +161,9 @@ CookiesOf(fields) ==
 (*   r = [method, path, hasq, query, version, headers, hasBody, body]      *)
 (*   header = [name, ows, kind, value, pairs, psep, entries]               *)
 (*     kind "plain":  value is the field value                             *)
-(*     kind "cookie": pairs = <<<<name, value>>, ...>>, joined with psep   *)
+(*     kind "cookie": pairs = pieces joined with psep; a piece is           *)
+(*                    <<name, value>> (written name "=" value) or <<text>> *)
+(*                    (no "=": not a cookie-pair, it denotes nothing)      *)
 (*     kind "xff":    entries = <<[pre, txt, post, ip], ...>> joined with  *)
 (*                    ","; pre/post are OWS runs, ip says whether txt is   *)
 (*                    meant as an address                                  *)
@@ -177,7 +182,8 @@ Ent(pre, txt, post, ip) == [pre |-> pre, txt |-> txt, post |-> post, ip |-> ip]
 
 HValue(h) ==
   CASE h.kind = "plain"  -> h.value
-    [] h.kind = "cookie" -> Join([ i \in 1..Len(h.pairs) |-> h.pairs[i][1] \o <<EQS>> \o h.pairs[i][2] ], h.psep)
+    [] h.kind = "cookie" -> Join([ i \in 1..Len(h.pairs) |-> IF Len(h.pairs[i]) = 2 THEN h.pairs[i][1] \o <<EQS>> \o h.pairs[i][2]
+                                                              ELSE h.pairs[i][1] ], h.psep)
     [] h.kind = "xff"    -> Join([ i \in 1..Len(h.entries) |-> h.entries[i].pre \o h.entries[i].txt \o h.entries[i].post ],
                                  <<COMMA>>)
 
@@ -194,15 +200,16 @@ WfHeader(h) ==
   /\ (h.kind = "cookie") => /\ LowerSeq(h.name) = N_COOKIE
                             /\ h.psep \in { <<SEMI>>, <<SEMI, SP>> }
                             /\ \A i \in 1..Len(h.pairs) :
-                                 /\ h.pairs[i][1] # <<>> /\ NoSym(h.pairs[i][1], {SEMI, EQS, SP, HT, COMMA})
-                                 /\ NoSym(h.pairs[i][2], {SEMI, SP, HT, COMMA})
+                                 /\ Len(h.pairs[i]) \in {1, 2}
+                                 /\ NoSym(h.pairs[i][1], {SEMI, EQS, SP, HT})        \* the name may be empty (a lone "=")
+                                 /\ Len(h.pairs[i]) = 2 => NoSym(h.pairs[i][2], {SEMI, SP, HT})
   /\ (h.kind = "xff")    => /\ LowerSeq(h.name) = N_XFF
                             /\ h.entries # <<>>
                             /\ h.entries[1].pre = <<>> /\ h.entries[Len(h.entries)].post = <<>>
                             /\ \A i \in 1..Len(h.entries) :
                                  /\ AllOWS(h.entries[i].pre) /\ AllOWS(h.entries[i].post)
                                  /\ NoSym(h.entries[i].txt, {COMMA, SP, HT})
-                                 /\ (i \in {1, Len(h.entries)} => h.entries[i].txt # <<>>)
+                                 /\ (h.entries[i].txt = <<>> => h.entries[i].pre = <<>> /\ h.entries[i].post = <<>>)   \* ",," and a lone ","
 
 WfTree(r) ==
   /\ r.method \in Methods
@@ -254,7 +261,7 @@ Norm(r, clName, clAfter, peer) ==
       headers |-> NormFields(hs), hasBody |-> r.hasBody, body |-> r.body,
       addr |-> IF n = 0 THEN Direct(peer)
                ELSE [origin |-> ips[n].txt, proxies |-> [ i \in 1..(n - 1) |-> ips[i].txt ] \o <<peer.ip>>, port |-> peer.port],
-      cookies |-> IF ck = <<>> THEN <<>> ELSE ck[1].pairs,
+      cookies |-> IF ck = <<>> THEN <<>> ELSE SelectSeq(ck[1].pairs, LAMBDA pc : Len(pc) = 2),
       used |-> Len(RenderWith(r, hs))]
 
 (***************************************************************************)
